@@ -207,7 +207,6 @@ pub mod verif_hooks;
 mod vm;
 
 use crate::analyze::analyze;
-use crate::compile::compile;
 use crate::parse::{ExprTree, NamedGroups, Parser};
 use crate::vm::{Prog, OPTION_SKIPPED_EMPTY_MATCH};
 
@@ -697,7 +696,7 @@ impl Regex {
             });
         }
 
-        let prog = compile(&info)?;
+        let prog = compile::compile_with_options(&info, &options)?;
         Ok(Regex {
             inner: RegexImpl::Fancy {
                 prog,
